@@ -295,7 +295,7 @@ class Run:
             self.count("%s: Deserialize %s" % (label, gk))
             # never panics
             if gk == "panic" or vk == "panic":
-                self.report("panic:" + (c["D"] if gk == "panic" else c["V"])[:60], "Deserialize/DeserializeDataItem panics on this input", c)
+                self.report("panic:" + re.sub(r"\d+", "N", (c["D"] if gk == "panic" else c["V"]))[:60], "Deserialize/DeserializeDataItem panics on this input", c)
                 continue
             if mk in ("panic", "fuel") or dk == "fuel":
                 self.report("model-panic", "the model predicts a panic / ran out of fuel on this input", c, dict(model=c["m_des"]))
@@ -428,7 +428,7 @@ class Run:
             vk, vp = go_class(c["V"])
             dk, dp = model_class(dec)
             if vk == "panic":
-                self.report("panic:" + c["V"][:60], "DeserializeDataItem panics", c)
+                self.report("panic:" + re.sub(r"\d+", "N", c["V"])[:60], "DeserializeDataItem panics", c)
                 continue
             if c["hex"] is None:
                 self.report("SerializeDataItem-fails", "SerializeDataItem fails on a value of the WAMP data model: " + c["V"], c)
@@ -761,7 +761,7 @@ def main(tier, replay):
             continue
         run.count("probe: %s" % ("accepted (defect present)" if gk == "ok" else "rejected"))
         if gk == "panic":
-            run.report("panic:" + c["D"][:60], "Deserialize panics", c)
+            run.report("panic:" + re.sub(r"\d+", "N", c["D"])[:60], "Deserialize panics", c)
         elif gk == "ok":
             run.report(sig, what, c)
     qcases = [c for c in pcases if c["kind"] == "Q"]
@@ -769,7 +769,7 @@ def main(tier, replay):
         gk, gp = go_class(c["D"])
         run.count("probe: round trip %s" % ("equal" if rt == "true" else "NOT equal (defect present)"))
         if gk == "panic":
-            run.report("panic:" + c["D"][:60], "Deserialize panics", c)
+            run.report("panic:" + re.sub(r"\d+", "N", c["D"])[:60], "Deserialize panics", c)
         elif rt != "true":
             run.report(c["_sig"], JSON_FLOAT_WHAT + " — here: " + c["D"][:160], c)
     # 2a. golden wire format: fixed messages of every type, bytes and decoded result as on the reference tree
